@@ -19,7 +19,7 @@ import (
 // attributed to the code between the markers.
 var runtimeSyscalls = map[string]bool{"futex": true, "rt_sigreturn": true, "rt_sigprocmask": true, "sigaltstack": true, "mmap": true, "munmap": true,
 	"madvise": true, "mprotect": true, "sched_yield": true, "nanosleep": true, "clock_nanosleep": true, "tgkill": true, "getpid": true, "gettid": true,
-	"epoll_pwait": true, "epoll_wait": true, "clone": true, "clone3": true, "sched_getaffinity": true, "restart_syscall": true}
+	"epoll_pwait": true, "epoll_wait": true, "clone": true, "clone3": true, "sched_getaffinity": true, "restart_syscall": true, "rt_sigaction": true, "membarrier": true, "set_robust_list": true, "rseq": true}
 
 type pkgFiles struct {
 	dir, name string
